@@ -31,6 +31,12 @@
 (* Bytes are positions 1..n of the application write; a ciphertext is the  *)
 (* interval of positions it seals.  One action per loop iteration of the   *)
 (* sender (Produce) and per frame handled by the receiver (Deliver).       *)
+(*                                                                         *)
+(* Deviations: DevChunkBeforeOverhead (the shell pump reads Max bytes: the *)
+(* pinned code, ciphertext Max+Ovh+1 split over two frames),               *)
+(* DevMeshChunkIsMax (meshConn.Write forgets the overhead: the encoder     *)
+(* refuses the frame), DevFileNoSlackNoOverhead (file chunk of Max bytes). *)
+(* The stall of a shell session under back pressure is in ShellPipes.tla.  *)
 (***************************************************************************)
 EXTENDS Integers, Sequences, FiniteSets, TLC, Json
 
